@@ -191,6 +191,45 @@ enum Color { Red, Blue }
 #[derive(Debug, PartialEq, Deserialize, DSerialize, Clone)]
 struct Flat { id: i32, #[serde(flatten)] extra: BTreeMap<String, i32> }
 
+// enums tagged inside / beside their content: the tag must be the variant's NAME
+#[derive(Debug, PartialEq, Deserialize, DSerialize, Clone)]
+#[serde(tag = "t")]
+enum IT { A { x: i32 }, B }
+#[derive(Debug, PartialEq, Deserialize, DSerialize, Clone)]
+#[serde(tag = "t", content = "c")]
+enum AT { A { x: i32 }, B, C(i32, i32) }
+#[derive(Debug, PartialEq, Deserialize, DSerialize, Clone)]
+#[serde(untagged)]
+enum UT { N(i32), S(String), P { x: i32 } }
+/// a hand-written visitor that reads exactly one entry of a map and stops
+#[derive(Debug, PartialEq, Clone)]
+struct FirstEntry(String, i32);
+impl Serialize for FirstEntry {
+    fn serialize<S: Serializer>(&self, s: S) -> Result<S::Ok, S::Error> {
+        let mut m = s.serialize_map(Some(1))?;
+        m.serialize_entry(&self.0, &self.1)?;
+        m.end()
+    }
+}
+impl<'de> serde::Deserialize<'de> for FirstEntry {
+    fn deserialize<D: serde::Deserializer<'de>>(d: D) -> Result<Self, D::Error> {
+        struct V;
+        impl<'de> serde::de::Visitor<'de> for V {
+            type Value = FirstEntry;
+            fn expecting(&self, f: &mut std::fmt::Formatter<'_>) -> std::fmt::Result {
+                f.write_str("a map")
+            }
+            fn visit_map<A: serde::de::MapAccess<'de>>(self, mut m: A) -> Result<FirstEntry, A::Error> {
+                match m.next_entry::<String, i32>()? {
+                    Some((k, v)) => Ok(FirstEntry(k, v)),
+                    None => Err(serde::de::Error::custom("empty")),
+                }
+            }
+        }
+        d.deserialize_map(V)
+    }
+}
+
 fn dec<T>(var: &Variable, val: &Value) -> (String, String, bool)
 where
     T: serde::de::DeserializeOwned + std::fmt::Debug + Serialize,
@@ -210,10 +249,10 @@ where
     (sa, sb, rt)
 }
 
-pub const TYPES: [&str; 33] = ["bool", "i8", "u8", "i32", "i64", "u64", "f64", "char", "String", "Option<i32>", "()", "Unit", "Newtype",
+pub const TYPES: [&str; 38] = ["bool", "i8", "u8", "i32", "i64", "u64", "f64", "char", "String", "Option<i32>", "()", "Unit", "Newtype",
     "Vec<i32>", "Vec<u8>", "(i32,String)", "Pair", "Point", "E", "BTreeMap<String,i32>", "Vec<Option<bool>>", "Outer", "Option<E>", "Vec<Point>",
     "BTreeMap<UserId,Vec<u32>>", "BTreeMap<char,i32>", "BTreeMap<Color,i32>", "Flat", "Vec<UserId>",
-    "[i32;2]", "Box<Point>", "(UserId,i32)", "BTreeMap<String,Option<Point>>"];
+    "[i32;2]", "Box<Point>", "(UserId,i32)", "BTreeMap<String,Option<Point>>", "IT", "AT", "UT", "FirstEntry", "Vec<IT>"];
 
 fn dec_by_name(ty: &str, var: &Variable, val: &Value) -> (String, String, bool) {
     match ty {
@@ -252,6 +291,11 @@ fn dec_by_name(ty: &str, var: &Variable, val: &Value) -> (String, String, bool) 
         "Box<Point>" => dec::<Box<Point>>(var, val),
         "(UserId,i32)" => dec::<(UserId, i32)>(var, val),
         "BTreeMap<String,Option<Point>>" => dec::<BTreeMap<String, Option<Point>>>(var, val),
+        "IT" => dec::<IT>(var, val),
+        "AT" => dec::<AT>(var, val),
+        "UT" => dec::<UT>(var, val),
+        "FirstEntry" => dec::<FirstEntry>(var, val),
+        "Vec<IT>" => dec::<Vec<IT>>(var, val),
         _ => ("?".into(), "?".into(), false),
     }
 }
